@@ -25,7 +25,14 @@ R15d exclusion table: the early `return []` exits of _get_record_runlog_items an
 R15e completion is tracked: in every PInterpreter.visit_* of a node class that is not excluded, each
      `node.completed = True` on the visitor's own node lies on a path that also calls tracking.mark_completed(node)
      (before or after), so a completed instruction has a Completed record state.
-Decides these clauses; does not decide producibility for every runtime state order (the two raise sites in
+R15f one conclusive state per invocation (producibility): the run-log generator ends an item at the first conclusive
+     state (Completed / Failed / Cancelled) of an invocation and *raises* on any later state of the same invocation, so
+     get_runlog() fails for the rest of the run once one request has been given two conclusive states. In
+     CommandManager, for the request being executed: no path of _execute_uod_command / _execute_internal_command leads
+     from one conclusive mark (tracking.mark_completed/failed/cancelled on the request or its command, directly or
+     through _cancel_command, whose summary may mark Cancelled) to a different one, and no path from such a mark leaves
+     the function by raising into the handler of _execute_command, which marks the request Failed.
+Decides these clauses; does not decide producibility for every runtime state order beyond R15f (the raise sites in
 _get_record_runlog_items depend on runtime data), nor monotonicity of the engine clock itself.
 """
 from __future__ import annotations
@@ -34,6 +41,7 @@ import ast
 
 from ..model import AnchorError, norm, walk_no_nested
 from ..util import cfg_of, node_calls, call_attr, assigned_attrs, enum_members, local_single_defs
+from ..cfg import facts_at
 
 EXPLANATION = __doc__
 RL = "openpectus.lang.exec.runlog"
@@ -195,6 +203,7 @@ def run(ctx) -> None:
     ctx.rule("R15c", "conclusive states finalise the item (end set, not cancellable/forcible, appended) - per enum member path enumeration")
     ctx.rule("R15d", "exclusion table equals the property's exclusion list")
     ctx.rule("R15e", "visitors pair node.completed = True with tracking.mark_completed(node)")
+    ctx.rule("R15f", "a command request never receives two different conclusive record states")
     ri = prog.cls(f"{RL}:RuntimeInfo")
     rr = prog.cls(f"{RL}:RuntimeRecord")
     gri = ri.find_method("_get_record_runlog_items")
@@ -619,6 +628,104 @@ def run(ctx) -> None:
         raise AnchorError(f"only {n_pairs} `node.completed = True` sites found in PInterpreter visitors (floor 13)")
 
 
+    # ---------------------------------------------------------------- R15f
+    CMQ = "openpectus.engine.command_manager:CommandManager"
+    outer = prog.func(f"{CMQ}._execute_command")
+    cancel = prog.func(f"{CMQ}._cancel_command")
+    ctx.analysed(outer)
+    ctx.analysed(cancel)
+    MARKS = {"mark_completed": "Completed", "mark_failed": "Failed", "mark_cancelled": "Cancelled"}
+    cancel_par = cancel.node.args.args[1].arg
+    cancel_marks = {MARKS[call_attr(c)] for c in walk_no_nested(cancel.node) if isinstance(c, ast.Call) and call_attr(c) in MARKS
+                    and c.args and norm(c.args[0]) == cancel_par}
+
+    # the Cancelled mark inside _cancel_command is guarded by `not <cmd>.is_execution_complete()`; execution-complete is
+    # monotone, so after a node that holds `<cmd>.is_execution_complete()` the summary contributes no Cancelled mark
+    gcan = cfg_of(cancel)
+    cancel_needs_incomplete = False
+    for cn in gcan.nodes:
+        if cn.ast is not None and any(call_attr(c) == "mark_cancelled" for c in cn.calls()):
+            cancel_needs_incomplete = any(a.endswith(".is_execution_complete()") and not pol for a, pol in facts_at(gcan, cn))
+
+    def marks_of(n, subjects):
+        out = set()
+        for c in n.calls():
+            nm = call_attr(c)
+            if nm in MARKS and c.args and norm(c.args[0]) in subjects:
+                out.add(MARKS[nm])
+            if nm == "_cancel_command" and c.args and norm(c.args[0]) in subjects:
+                out |= cancel_marks
+        return out
+    go = cfg_of(outer)
+    opar = outer.node.args.args[1].arg
+    handler_marks = []   # (node, kinds) inside except handlers of the outer function
+    for n in go.nodes:
+        if n.ast is not None and marks_of(n, {opar}) and any(isinstance(a, ast.ExceptHandler) for a in _ancestors_of(outer, n.ast)):
+            handler_marks.append((n, marks_of(n, {opar})))
+    if not handler_marks:
+        raise AnchorError("CommandManager._execute_command: handler no longer marks the request failed")
+    n_f = 0
+    for callee_name in ("_execute_uod_command", "_execute_internal_command"):
+        k = prog.func(f"{CMQ}.{callee_name}")
+        ctx.analysed(k)
+        gk = cfg_of(k)
+        kpar = k.node.args.args[1].arg
+        # subjects: the request parameter and command objects obtained for it
+        subjects = {kpar}
+        for nm, dv in local_single_defs(k).items():
+            if isinstance(dv, ast.Call) and kpar in norm(dv):
+                subjects.add(nm)
+        for st in ast.walk(k.node):
+            if isinstance(st, ast.Assign) and len(st.targets) == 1 and isinstance(st.targets[0], ast.Name) and kpar in norm(st.value):
+                subjects.add(st.targets[0].id)
+        mk_nodes = [(n, marks_of(n, subjects)) for n in gk.nodes if n.ast is not None and marks_of(n, subjects)]
+        called_in_try = any(call_attr(c) == callee_name for n in go.nodes for c in n.calls())
+        for n, kinds in mk_nodes:
+            # (1) a different conclusive mark later in the same function
+            n_complete = any(a.endswith(".is_execution_complete()") and pol for a, pol in facts_at(gk, n))
+            for n2, kinds2 in mk_nodes:
+                if n_complete and cancel_needs_incomplete and any(call_attr(c) == "_cancel_command" for c in n2.calls()) \
+                        and not any(call_attr(c) in MARKS for c in n2.calls()):
+                    kinds2 = kinds2 - {"Cancelled"}
+                if n2.id == n.id or not (kinds2 - kinds):
+                    continue
+                n_f += 1
+                inst = f"{callee_name}: `{n.text()[:50]}` ({'/'.join(sorted(kinds))}) then `{n2.text()[:50]}` ({'/'.join(sorted(kinds2))})"
+                pth = gk.search([n.id], lambda x, n2=n2: x.id == n2.id, follow_exc=True)
+                if pth is not None and len(pth) > 1:
+                    ctx.fail("R15f", k, n2.ast, inst, "one request can be given two different conclusive record states on this path: "
+                             "get_runlog() raises 'Error generating runlog' from then on", pth)
+                else:
+                    ctx.ok("R15f", inst, trivial=True)
+            # (2) leaving by raise into the outer handler, which marks Failed
+            if called_in_try:
+                for hn, hk in handler_marks:
+                    if not (hk - kinds):
+                        continue
+                    n_f += 1
+                    inst = f"{callee_name}: `{n.text()[:50]}` ({'/'.join(sorted(kinds))}) then raise -> _execute_command: `{hn.text()[:45]}` ({'/'.join(sorted(hk))})"
+                    # leave n normally (if the mark itself raises the state was not added), then reach the raise exit; a
+                    # statement that only logs (or calls nothing) is not taken to raise
+                    def quiet(sid, d, lab, gk=gk):
+                        if lab != "exc":
+                            return False
+                        sn = gk.nodes[sid]
+                        if isinstance(sn.ast, ast.Raise):
+                            return False
+                        return all(norm(c.func).split(".")[0] in ("logger", "frontend_logger") for c in sn.calls())
+                    starts = [d for d, lab in gk.succ[n.id] if lab != "exc"]
+                    pth = gk.search(starts, lambda x: x.id == gk.raise_exit.id, follow_exc=True, blocked_edge=quiet) if starts else None
+                    if pth is not None:
+                        pth = [n] + pth
+                        ctx.fail("R15f", k, n.ast, inst, "the request is given a conclusive record state and the function then leaves by "
+                                 "raising; the caller's handler marks the same request Failed: two conclusive states for one "
+                                 "invocation make get_runlog() raise 'Error generating runlog' for the rest of the run", pth)
+                    else:
+                        ctx.ok("R15f", inst)
+    if n_f < 3:
+        raise AnchorError(f"R15f: only {n_f} conclusive-mark pairs examined in CommandManager (floor 3)")
+
+
 def _mentions(expr: ast.AST, name: str) -> bool:
     return any(isinstance(n, ast.Name) and n.id == name for n in ast.walk(expr))
 
@@ -649,3 +756,11 @@ def _all_defs_owned(fn, id_name: str, rec_name: str) -> bool:
                 continue
         return False
     return True
+
+
+def _ancestors_of(fn, node):
+    pm = {id(ch): par for par in ast.walk(fn.node) for ch in ast.iter_child_nodes(par)}
+    cur = pm.get(id(node))
+    while cur is not None:
+        yield cur
+        cur = pm.get(id(cur))
